@@ -86,6 +86,8 @@ DIRECTED_DSDL = {
         "reg/U.1.0.dsdl": "@union\nuint8 a\nreg.sub.Inner.1.0[<=2] b\nfloat32[2] c\nuint16[<=4] d\n@extent 64 * 8\n",
         "reg/V.1.0.dsdl": "bool[<=9] bits\nreg.U.1.0[<=2] us\nint7 small\nfloat16 h\nvoid3\nuint64[<=2] big\n@sealed\n",
         "reg/S.1.0.dsdl": "uint8 x\nreg.V.1.0 v\n@extent 200 * 8\n---\nreg.U.1.0 u\nuint8[<=5] tail\n@sealed\n",
+        "reg/X.1.0.dsdl": "@union\nuint8[<=4] arr\nreg.sub.Inner.1.0 comp\nuint8 prim\n@sealed\n",
+        "reg/Y.1.0.dsdl": "reg.X.1.0 first\nreg.X.1.0[<=2] xs\nuint8 z\n@sealed\n",
         "reg/W.1.0.dsdl": "@union\nuint8 prim\nuint8[<=4] arr\nreg.sub.Inner.1.0 comp\nuint16 prim2\nreg.sub.Inner.1.0[<=3] comps\n@sealed\n",
     },
 }
